@@ -639,7 +639,47 @@ def enum_small(tier):
       yield {'what': 'hex', 'upper': upper, 'first': first}
 
 
+# ------------------------------------------------------------------ arm: the same s (and r) on several curves
+
+def run_same_s(desc):
+  """Valid signatures on several curves that share the integer s (constructed: pick k and s, solve for d).
+  The relation must hold on every curve whatever was computed for another curve before (per-process state
+  keyed by signature values alone must not leak between curves)."""
+  mat = Material(desc['m'], 'c09sames')
+  curves = [eg.PRIME_CURVES[i % len(eg.PRIME_CURVES)] for i in desc['curves']]
+  nmin = min(eg.ref(c).n for c in curves)
+  s_val = 1 + mat.below(nmin - 1)
+  h = mat.bytes(desc['hlen'])
+  for ct in curves:
+    rc = eg.ref(ct)
+    n = rc.n
+    for _ in range(20):
+      k = 1 + mat.below(n - 1)
+      r = eg.mul_g(ct, k)[0] % n
+      if r:
+        break
+    z = eg.bits2int_z(h, n)
+    d = (s_val * k - z) * pow(r, -1, n) % n
+    if d == 0:
+      continue
+    if not eg.verify(ct, eg.mul_g(ct, d), r, s_val, h):
+      raise AssertionError('constructed signature does not verify')   # harness error
+    curve = ec_util.CURVE_FACTORY[ct]
+    for conv in (gmpy.mpz, int):
+      a, b = libcall(curve.HiddenNumberParams, conv(r), conv(s_val), conv(z))
+      if (int(a) + int(b) * d - k) % n:
+        raise Violation('hnp:relation-with-shared-s', curve=eg.CURVE_NAMES[ct], s=s_val, r=r, z=z, d=d, k=k,
+                        a=int(a), b=int(b), curves=[eg.CURVE_NAMES[c] for c in curves])
+  return {'nt': len(set(curves)) > 1, 'cls': ['same-s curves=%d' % len(set(curves))]}
+
+
+def strat_same_s(tier):
+  return st.fixed_dictionaries({'m': material, 'curves': st.lists(st.integers(0, 8), min_size=2, max_size=4),
+                                'hlen': st.sampled_from([20, 32, 48, 64])})
+
+
 ARMS = [
+    Arm('same_s_on_several_curves', run_same_s, strategy=strat_same_s, quick=600, thorough=6000),
     Arm('nonce_relation', run_nonce, strategy=strat_nonce, quick=12000, thorough=330000,
         doc='reference signature -> ECDSAValues -> HiddenNumberParams: a + b d = k (mod n)', weight=3),
     Arm('nonce_grid', run_nonce, enumerate=enum_nonce, exhaustive=True,
